@@ -112,6 +112,8 @@ class Frame:
         self.alias = {}                 # local name -> parameter name while it still denotes the caller's object
         self.param_out = {}             # parameter name -> term after in-place updates
         self.selfobj = selfobj
+        self._pre = {}
+        self.mutated = set()            # local names whose object was updated in place since they were bound
         self.mod = func.mod
         self._bind(bound)
 
@@ -171,6 +173,11 @@ class Frame:
 
     def truth(self, c):
         tag = c[0]
+        if tag == 'strtest' and T.isconst(c[2]) and T.isconst(c[3]):
+            return ('const', getattr(c[2][1], c[1])(c[3][1]))
+        if tag == 'cmp' and c[1] in ('In', 'NotIn') and T.isconst(c[2]) and T.isconst(c[3]) and isinstance(c[2][1], str) and isinstance(c[3][1], str):
+            r = c[2][1] in c[3][1]
+            return ('const', r if c[1] == 'In' else not r)
         if tag == 'const':
             v = c[1]
             if v in ('nan', 'inf', '-inf'):
@@ -453,27 +460,23 @@ class Frame:
 
     def unrollable(self, it_node):
         """literal (or constant-folded) short sequences are unrolled: exact semantics, lets option-key loops fold"""
-        n = it_node
-        wrap = None
-        if isinstance(n, ast.Call) and isinstance(n.func, ast.Name) and n.func.id == 'enumerate' and 'enumerate' not in self.env and len(n.args) == 1:
-            wrap, n = 'enumerate', n.args[0]
-        if isinstance(n, ast.Call) and isinstance(n.func, ast.Name) and n.func.id in ('range', 'zip', 'product'):
-            return None
-        t = self.ex(n)
-        if t[0] == 'nd':
-            t = t[1]
-        if t[0] in ('list', 'tuple') and len(t[1]) <= 8:
-            if wrap:
-                return [('tuple', (C(i), e)) for i, e in enumerate(t[1])]
-            return list(t[1])
-        return None
+        return self.literal_items(it_node)
 
     def st_For(self, s):
         items = self.unrollable(s.iter)
         if items is not None and not any(isinstance(x, (ast.Break, ast.Continue)) for b in s.body for x in ast.walk(b)):
-            for e in items:
+            src = s.iter.args[0] if isinstance(s.iter, ast.Call) and isinstance(s.iter.func, ast.Name) and s.iter.func.id == 'enumerate' else s.iter
+            elem_t = s.target.elts[1] if isinstance(s.target, ast.Tuple) and src is not s.iter and len(s.target.elts) == 2 else s.target
+            for i, e in enumerate(items):
                 self.assign(s.target, e, s)
                 out = self.block(s.body)
+                # the loop variable aliases the list element: in-place updates through it are updates of the element
+                if isinstance(elem_t, ast.Name) and elem_t.id in self.mutated and self.is_place(src):
+                    cur = self.place_get(src)
+                    if cur[0] == 'list' and i < len(cur[1]):
+                        lst = list(cur[1])
+                        lst[i] = self.env[elem_t.id]
+                        self.place_set(src, ('list', tuple(lst)))
                 if out != FALL:
                     return out
             if s.orelse:
@@ -539,6 +542,7 @@ class Frame:
     # ------------------------------------------------------------------ assignment
     def update_name(self, name, new):
         self.env[name] = new
+        self.mutated.add(name)
         if name in self.alias:
             self.param_out[self.alias[name]] = new
 
@@ -549,17 +553,28 @@ class Frame:
         if isinstance(node, ast.Attribute) and isinstance(node.value, ast.Name):
             b = self.env.get(node.value.id)
             return b is not None and b[0] == 'obj'
+        if isinstance(node, ast.Subscript) and self.is_place(node.value) and isinstance(node.slice, ast.Constant) \
+                and isinstance(node.slice.value, int) and not isinstance(node.slice.value, bool):
+            b = self.place_get(node.value)       # element of a literal list held in a place
+            return b[0] == 'list' and -len(b[1]) <= node.slice.value < len(b[1])
         return False
 
     def place_get(self, node):
         if isinstance(node, ast.Name):
             return self.env.get(node.id, ('opaque', node.id))
+        if isinstance(node, ast.Subscript):
+            return self.place_get(node.value)[1][node.slice.value]
         b = self.env[node.value.id]
         return self.ctx.heap[b[1]]['attrs'].get(node.attr, ('undefined', node.attr))
 
     def place_set(self, node, new):
         if isinstance(node, ast.Name):
             self.update_name(node.id, new)
+        elif isinstance(node, ast.Subscript):
+            b = self.place_get(node.value)
+            items = list(b[1])
+            items[node.slice.value] = new
+            self.place_set(node.value, ('list', tuple(items)))
         else:
             b = self.env[node.value.id]
             self.ctx.heap[b[1]]['attrs'][node.attr] = new
@@ -567,6 +582,7 @@ class Frame:
     def assign(self, t, v, node):
         if isinstance(t, ast.Name):
             self.env[t.id] = v
+            self.mutated.discard(t.id)
             self.alias.pop(t.id, None)
         elif isinstance(t, (ast.Tuple, ast.List)):
             for i, e in enumerate(t.elts):
@@ -653,6 +669,8 @@ class Frame:
 
     # ------------------------------------------------------------------ expressions
     def ex(self, n):
+        if self._pre and id(n) in self._pre:
+            return self._pre.pop(id(n))
         m = getattr(self, 'ex_' + type(n).__name__, None)
         if m is None:
             self.ctx.opaque.append((f'expression {type(n).__name__}', self.where(n)))
@@ -900,6 +918,10 @@ class Frame:
         if b[0] == 'indexer':
             if k[0] == 'tuple' and len(k[1]) == 2:
                 return T.call('cell', (b[2], k[1][0], k[1][1]), {'how': C(b[1])})
+            if b[2][0] == 'table':       # positional / boolean row selection keeps the columns
+                if k[0] == 'rangeobj':
+                    k = ('sl', k[1], k[2], NONE)
+                return ('table', tuple((c, T.index(v, ('rowsel', k))) for c, v in b[2][1]), T.call('count', (k,)))
             return T.call('rowsel', (b[2], k), {'how': C(b[1])})
         if b[0] == 'table':
             if T.isconst(k) and isinstance(k[1], str):
@@ -937,9 +959,9 @@ class Frame:
         return ('opaque', 'lambda')
 
     def comprehension(self, n, kind):
-        if len(n.generators) != 1:
-            # nested generators: evaluate left to right
-            pass
+        r = self.unroll_comprehension(n, kind)
+        if r is not None:
+            return r
         saved_env, saved_loops = dict(self.env), list(self.loops)
         keys, conds = [], []
         for g in n.generators:
@@ -963,6 +985,79 @@ class Frame:
         if cond == TRUE:
             return ('map', key, elt)
         return ('filtermap', key, cond, elt)
+
+    def literal_items(self, it_node):
+        """elements of a short literal sequence (list/tuple display, keys of a known table, constant range), else None"""
+        if isinstance(it_node, ast.Call) and isinstance(it_node.func, ast.Name) and it_node.func.id not in self.env:
+            f = it_node.func.id
+            if f == 'range':
+                a = [self.ex(x) for x in it_node.args]
+                if all(T.isconst(x) and isinstance(x[1], int) for x in a) and a:
+                    r = range(*[x[1] for x in a])
+                    return [C(v) for v in r] if len(r) <= 40 else None
+                return None
+            if f == 'enumerate' and len(it_node.args) == 1:
+                inner = self.literal_items(it_node.args[0])
+                return None if inner is None else [('tuple', (C(i), e)) for i, e in enumerate(inner)]
+            if f == 'zip':
+                parts = [self.literal_items(a) for a in it_node.args]
+                if any(p is None for p in parts):
+                    return None
+                return [('tuple', tuple(x)) for x in zip(*parts)]
+        if isinstance(it_node, ast.Call) and ast.unparse(it_node.func) in ('product', 'itertools.product'):
+            parts = [self.literal_items(a) for a in it_node.args]
+            if any(p is None for p in parts):
+                return None
+            import itertools
+            out = [('tuple', tuple(x)) for x in itertools.product(*parts)]
+            return out if len(out) <= 64 else None
+        t0 = t = self.ex(it_node)
+        if t[0] == 'nd':
+            t = t[1]
+        if t[0] == 'keys' and t[1] is not None:
+            t = ('list', tuple(C(k) for k in t[1]))
+        if t[0] in ('list', 'tuple') and len(t[1]) <= (40 if all(T.isconst(x) for x in t[1]) else 12):
+            return list(t[1])
+        self._pre[id(it_node)] = t0        # evaluated once: reused when the loop is summarised symbolically
+        return None
+
+    def unroll_comprehension(self, n, kind):
+        if kind not in ('list', 'gen'):
+            return None
+        targets = set()
+        for g in n.generators:
+            targets |= _target_names(g.target)
+        saved = {k: self.env.get(k) for k in targets}
+        out = []
+
+        def rec(gi):
+            if gi == len(n.generators):
+                out.append(self.ex(n.elt))
+                return True
+            g = n.generators[gi]
+            items = self.literal_items(g.iter)
+            if items is None:
+                return False
+            for e in items:
+                self.assign(g.target, e, n)
+                conds = [self.fold(self.ex(c)) for c in g.ifs]
+                if any(c not in (TRUE, FALSE) for c in conds):
+                    return False
+                if all(c == TRUE for c in conds):
+                    if not rec(gi + 1):
+                        return False
+            return True
+        snapshot = dict(self.env)
+        ok = rec(0)
+        if not ok:
+            self.env = snapshot
+            return None
+        for k, v in saved.items():
+            if v is None:
+                self.env.pop(k, None)
+            else:
+                self.env[k] = v
+        return ('list', tuple(out))
 
     def ex_ListComp(self, n):
         return self.comprehension(n, 'list')
